@@ -130,6 +130,19 @@ func drawTargetCfg(c *Case) cache.Config {
 		cfg.ExpirationJitter = 0.5
 	}
 
+	// soft limits of the receiving cache concern its cleanup cycles (none runs here), not Restore
+	switch c.Weighted("target-limits", 4, 1, 1, 1) {
+	case 1:
+		cfg.HeapInUseSoftLimit = 1
+		c.Class("target-with-exceeded-soft-limit")
+	case 2:
+		cfg.SysMemSoftLimit = 1
+		c.Class("target-with-exceeded-soft-limit")
+	case 3:
+		cfg.CountSoftLimit, cfg.EvictFraction = 1, 0.9
+		c.Class("target-with-exceeded-soft-limit")
+	}
+
 	// an observed receiving cache (debug logger and/or stats tracker) takes the instrumented code paths
 	switch c.Weighted("target-observed", 3, 1, 1, 1) {
 	case 1:
